@@ -287,6 +287,35 @@ func longLens(thorough bool) []int {
 	return out
 }
 
+// skewLens: how often the dominant value of a skewed long input occurs: around the widths of narrow counters and
+// around the thresholds a change introduced into the source (VERIF_SIZES).
+func skewLens(thorough bool) []int {
+	out := []int{255, 256, 257, 513}
+	if thorough {
+		out = append(out, 4097)
+	}
+	for _, s := range extraSizes() {
+		if s <= 70000 {
+			out = append(out, s-1, s, s+1, 2*s+1)
+		}
+	}
+	return out
+}
+
+// skewSlice: the value 3 occurs exactly c times; every 97th position holds one of a few other values.
+func skewSlice(c, salt int) []int {
+	a := make([]int, 0, c+c/90+2)
+	for i, k := 0, 0; k < c; i++ {
+		if i%97 == 96 {
+			a = append(a, []int{-4, 0, 8, 0, 15}[(i/97+salt)%5])
+			continue
+		}
+		a = append(a, 3)
+		k++
+	}
+	return a
+}
+
 // longSlice: n values with duplicates, zeros and negative numbers in a non-periodic pattern.
 func longSlice(n, salt int) []int {
 	a := make([]int, n)
